@@ -41,7 +41,14 @@
 (*    poisons the allocator: AllocFailPoisons is the set of allowed        *)
 (*    outcomes ({TRUE, FALSE} in engine M); generated behaviours END at a  *)
 (*    failed allocation so nothing after it is compared;                   *)
-(*  - which error is returned: only success/failure is an observation.     *)
+(*  - which error is returned: only success/failure is an observation;     *)
+(*  - whether a block that would end EXACTLY at the 4 GiB limit is handed  *)
+(*    out (the statement never requires an allocation to succeed; the end  *)
+(*    of such a block is not representable in a 32-bit bumper): TopFits is *)
+(*    the set of allowed outcomes; a generated behaviour expects success   *)
+(*    (class "bump-top") and the harness accepts a refusal there, ending   *)
+(*    the behaviour.  What is NOT open: after such a block every further   *)
+(*    bump must fail (out of space).                                       *)
 (* Pinned although the statement does not (by the design brief, C28 "as    *)
 (* the algorithm"): the exact pointer (first-fit from the per-order LIFO   *)
 (* free list, else bump) and the page-growth policy (double, at least the  *)
@@ -61,11 +68,12 @@ EXTENDS Integers, Sequences, FiniteSets, TLC, Json
 CONSTANTS NumOrders,        \* number of size classes (real: 23, blocks of 8 B .. 32 MiB)
           PageUnits,        \* units per Wasm page (real: 8192 = 64 KiB)
           MaxPages,         \* the allocator's absolute page limit (real: 65536 = 4 GiB)
-          Inits,            \* set of [bu, bb, pages, memmax]: heap base = 8*bu + bb bytes
-          Sizes,            \* request sizes in bytes
+          Inits,            \* set of [bu, bb, pages, memmax, sizes, fw]: heap base = 8*bu + bb bytes,
+                            \* initial / maximal pages of the linear memory, request sizes in bytes used
+                            \* in this behaviour, generator weight (out of 60) of freeing a live block
           ModelData,        \* TRUE: the caller's data words are kept in mem (engine M)
           AllocFailPoisons, \* allowed values of poisoned after a failed allocation
-          FreeWeight,       \* generator: out of 60, how often a live block is freed
+          TopFits,          \* allowed outcomes (TRUE = succeeds) for a block ending exactly at MaxPages
           InvalidWeight,    \* generator: out of 60, how often an invalid free is tried
           Depth             \* behaviour length
 
@@ -95,7 +103,7 @@ OrderOf(size) == CHOOSE o \in Orders : 8 * Pow(o) >= size /\ (o = 0 \/ 8 * Pow(o
 InitState(i) ==
   LET b == i.bu + (IF i.bb > 0 THEN 1 ELSE 0) IN
   [bumper |-> b, heads |-> [o \in Orders |-> Nil], mem |-> <<>>, pages |-> i.pages, memmax |-> i.memmax,
-   base |-> b, poisoned |-> FALSE, live |-> {}, blocks |-> {}]
+   base |-> b, poisoned |-> FALSE, live |-> {}, blocks |-> {}, sizes |-> i.sizes, fw |-> i.fw]
 
 MemUnits(s) == s.pages * PageUnits
 
@@ -107,7 +115,7 @@ Fill(p, o) == IF ModelData THEN [u \in p..(p + Pow(o) - 1) |-> Dat(p)] ELSE <<>>
 
 AllocFail(s, cls, pz) == [s |-> [s EXCEPT !.poisoned = pz], ok |-> FALSE, p |-> 0, cls |-> cls]
 
-DoAlloc(s, size, pz) ==
+DoAlloc(s, size, pz, tf) ==
   IF s.poisoned THEN [s |-> s, ok |-> FALSE, p |-> 0, cls |-> "poisoned"]
   ELSE IF size > MaxAllocBytes THEN AllocFail(s, "oversize", pz)
   ELSE
@@ -129,13 +137,15 @@ DoAlloc(s, size, pz) ==
                 next == Max2(Min2(2 * s.pages, MaxPages), reqPages)
                 h2 == s.bumper
             IN IF grow /\ (s.pages >= MaxPages \/ reqPages > MaxPages) THEN AllocFail(s, "out-of-space", pz)
+               ELSE IF req = MaxPages * PageUnits /\ ~tf THEN AllocFail(s, "bump-top", pz)
                ELSE IF grow /\ next > s.memmax THEN AllocFail(s, "cannot-grow", pz)
                ELSE [s |-> [s EXCEPT !.bumper = req,
                                      !.pages = IF grow THEN next ELSE @,
                                      !.mem = MemSet(s.mem, [u \in {h2} |-> Occ(o)] @@ Fill(h2 + 1, o)),
                                      !.live = @ \cup {[p |-> h2 + 1, o |-> o]},
                                      !.blocks = @ \cup {[h |-> h2, o |-> o]}],
-                     ok |-> TRUE, p |-> h2 + 1, cls |-> IF grow THEN "bump-grow" ELSE "bump"]
+                     ok |-> TRUE, p |-> h2 + 1,
+                     cls |-> IF req = MaxPages * PageUnits THEN "bump-top" ELSE IF grow THEN "bump-grow" ELSE "bump"]
 
 --------------------------------------------------------------------------
 (* ---- Deallocate(ptr = 8*u + b) ----------------------------------------- *)
@@ -171,8 +181,8 @@ TopUnit == MaxPages * PageUnits
 (* where an unaligned pointer 8u+b (b > 0) has only never-written memory before it *)
 UnalignedOK(s, u) == u = 0 \/ u - 1 >= s.bumper \/ u < s.base
 
-Apply(s, o, pz) ==
-  IF o.op = "Allocate" THEN DoAlloc(s, o.size, pz) ELSE DoFree(s, o.u, o.b)
+Apply(s, o, pz, tf) ==
+  IF o.op = "Allocate" THEN DoAlloc(s, o.size, pz, tf) ELSE DoFree(s, o.u, o.b)
 
 Rec(o, r) == [o |-> o, r |-> [ok |-> r.ok, p |-> r.p, cls |-> r.cls],
               s |-> [poisoned |-> r.s.poisoned, pages |-> r.s.pages, bumper |-> r.s.bumper,
@@ -181,8 +191,8 @@ Rec(o, r) == [o |-> o, r |-> [ok |-> r.ok, p |-> r.p, cls |-> r.cls],
 Step(o) ==
   /\ ~done
   /\ Len(hist) < Depth
-  /\ \E pz \in AllocFailPoisons :
-       LET r == Apply(st, o, pz) IN
+  /\ \E ch \in (IF o.op = "Allocate" THEN AllocFailPoisons \X TopFits ELSE {<<TRUE, TRUE>>}) :
+       \E r \in {Apply(st, o, ch[1], ch[2])} :
        /\ st' = r.s
        /\ hist' = Append(hist, Rec(o, r))
        /\ after' = IF st.poisoned THEN after + 1
@@ -206,7 +216,7 @@ Init == /\ \E i \in Inits :
 
 (* engine M: every operation on every pointer of the (small) address space *)
 AllOps(s) ==
-       {[op |-> "Allocate", size |-> z] : z \in Sizes}
+       {[op |-> "Allocate", size |-> z] : z \in s.sizes}
   \cup {[op |-> "Deallocate", u |-> u, b |-> 0] : u \in 0..(TopUnit + 1)}
   \cup {[op |-> "Deallocate", u |-> u, b |-> 3] : u \in {x \in 0..(TopUnit + 1) : UnalignedOK(s, x)}}
 NextAll == \E o \in AllOps(st) : Step(o)
@@ -223,15 +233,17 @@ InvalidCands(s) ==
   IN {[u |-> u, b |-> 0] : u \in {x \in al \ lp : x >= 0 /\ x < 536870912}}
      \cup {[u |-> u, b |-> b] : u \in {x \in un : x < 536870912}, b \in {1, 4, 5, 7}}
 
+(* NB the argument of every RandomElement depends on a variable: TLC caches  *)
+(* constant-level expressions, a constant set would yield one fixed draw.   *)
 PickOp(s) ==
-  LET r == RandomElement(1..60)
+  LET r == RandomElement({x \in 1..60 : Len(hist) >= 0})
       lp == {a.p : a \in s.live}
       inv == InvalidCands(s)
   IN IF r <= InvalidWeight /\ inv # {}
        THEN LET c == RandomElement(inv) IN [op |-> "Deallocate", u |-> c.u, b |-> c.b]
-     ELSE IF r <= InvalidWeight + FreeWeight /\ lp # {}
+     ELSE IF r <= InvalidWeight + s.fw /\ lp # {}
        THEN [op |-> "Deallocate", u |-> RandomElement(lp), b |-> 0]
-     ELSE [op |-> "Allocate", size |-> RandomElement(Sizes)]
+     ELSE [op |-> "Allocate", size |-> RandomElement(s.sizes)]
 NextRand == (\E o \in {PickOp(st)} : after < 3 /\ Step(o)) \/ Finish
 
 SpecAll == Init /\ [][NextAll]_vars
